@@ -33,8 +33,21 @@ func init() {
 		p.MultiRefPct = 15
 		p.GopathPct = 12
 	}), Oracle: oracle.C11}
-	Props["C12"] = &PropDef{Profile: prof("C12", func(p *gen.Profile) { p.AdvNames = true; p.MaxParams = 6; p.UnnamedPct = 35; p.GenericPct = 10; p.ShadowPct = 25 }), Oracle: oracle.C12}
-	Props["C13"] = &PropDef{Profile: prof("C13", func(p *gen.Profile) { p.AdvNames = true; p.MaxParams = 5; p.UnnamedPct = 55; p.GenericPct = 8; p.MaxDepth = 4; p.ShadowPct = 10 }), Oracle: oracle.C13}
+	Props["C12"] = &PropDef{Profile: prof("C12", func(p *gen.Profile) {
+		p.AdvNames = true
+		p.MaxParams = 6
+		p.UnnamedPct = 35
+		p.GenericPct = 10
+		p.ShadowPct = 25
+	}), Oracle: oracle.C12}
+	Props["C13"] = &PropDef{Profile: prof("C13", func(p *gen.Profile) {
+		p.AdvNames = true
+		p.MaxParams = 5
+		p.UnnamedPct = 55
+		p.GenericPct = 8
+		p.MaxDepth = 4
+		p.ShadowPct = 10
+	}), Oracle: oracle.C13, Enumerate: enumerateC13}
 	Props["C14"] = &PropDef{Profile: prof("C14", func(p *gen.Profile) {
 		p.Conflict = true
 		p.MinDeps = 3
